@@ -148,3 +148,83 @@ Proof.
   - rewrite (lex_skip_blanks _ (c :: ws') X line ltac:(discriminate) WS).
     rewrite app_length. cbn [List.length]. rewrite Nat.add_succ_r. apply H.
 Qed.
+
+(* ---------- comments ---------- *)
+(* <!--c--> : the lexer first finds any '>' and then scans forward for the first "-->" — so the text of a comment that
+   is to be read back must not produce an earlier "-->" together with the two dashes of "<!--" *)
+Definition comment_text (c : list N) : list N := [60; 33; 45; 45] ++ c ++ [45; 45].
+Definition CommentOk (c : list N) : Prop :=
+  forall j, (4 <= j < List.length (comment_text c))%nat -> starts_with [45; 45; 62] (skipn (j - 2) (comment_text c)) = false.
+
+Lemma starts_with_app_inside pre S X i : (i + List.length pre <= List.length S)%nat ->
+  starts_with pre (skipn i (S ++ X)) = starts_with pre (skipn i S).
+Proof.
+  revert i. induction S as [|s S IH]; intros i L.
+  - destruct pre; [destruct i; destruct X; reflexivity|cbn in L; lia].
+  - destruct i as [|i]; cbn [skipn app].
+    + clear IH. revert s S L. induction pre as [|p pre IHp]; intros s S L; [reflexivity|].
+      cbn [starts_with]. f_equal. destruct S as [|s' S']; [destruct pre; [reflexivity|cbn in L; lia]|].
+      cbn [app]. apply IHp. cbn [List.length] in *. lia.
+    + apply IH. cbn [List.length] in L. lia.
+Qed.
+
+Lemma lex_comment f c tail line : CommentOk c ->
+  lex_next (S f) (mk (comment_text c ++ 62 :: tail) line None) =
+    Val (LOk (line + count_lines (comment_text c)) (EvComment c) (mk tail (line + count_lines (comment_text c)) None)).
+Proof.
+  intros OK. set (S0 := comment_text c). set (k := List.length S0).
+  assert (KL : k = (6 + List.length c)%nat) by (unfold k, S0, comment_text; rewrite !app_length; cbn [List.length]; lia).
+  set (rest := S0 ++ 62 :: tail).
+  assert (R0 : rest = 60 :: 33 :: ([45; 45] ++ c ++ [45; 45]) ++ 62 :: tail).
+  { unfold rest, S0, comment_text. cbn [app]. rewrite <- !app_assoc. reflexivity. }
+  (* the first '>' *)
+  assert (EXP : exists fp, position (N.eqb 62) (33 :: ([45; 45] ++ c ++ [45; 45]) ++ 62 :: tail) = Some (S fp) /\ (S (S fp) <= k)%nat).
+  { destruct (position (N.eqb 62) (33 :: ([45; 45] ++ c ++ [45; 45]) ++ 62 :: tail)) as [p|] eqn:P.
+    - destruct p as [|fp]; [cbn [position] in P; change (N.eqb 62 33) with false in P; cbv iota in P;
+                             destruct (position (N.eqb 62) (([45; 45] ++ c ++ [45; 45]) ++ 62 :: tail)); discriminate P|].
+      exists fp. split; [reflexivity|].
+      pose proof (position_Some _ _ P) as (_ & _ & NO).
+      destruct (le_lt_dec (S (S fp)) k) as [A|B]; [exact A|exfalso].
+      (* the '>' at index k-1 of the tail would be inside the '>'-free prefix *)
+      assert (IN : In 62 (firstn (S fp) (33 :: ([45; 45] ++ c ++ [45; 45]) ++ 62 :: tail))).
+      { change (33 :: ([45; 45] ++ c ++ [45; 45]) ++ 62 :: tail) with ((33 :: [45; 45] ++ c ++ [45; 45]) ++ 62 :: tail).
+        assert (LL : List.length (33 :: [45; 45] ++ c ++ [45; 45]) = (k - 1)%nat).
+        { cbn [List.length]. rewrite !app_length. cbn [List.length]. lia. }
+        rewrite firstn_app, LL. apply in_or_app. right.
+        replace (S fp - (k - 1))%nat with (S (S fp - k)) by lia. cbn [firstn]. left. reflexivity. }
+      rewrite forallb_forall in NO. specialize (NO 62 IN). discriminate NO.
+    - exfalso. apply position_None in P. rewrite forallb_forall in P.
+      assert (IN : In 62 (33 :: ([45; 45] ++ c ++ [45; 45]) ++ 62 :: tail)) by (right; apply in_or_app; right; left; reflexivity).
+      specialize (P 62 IN). discriminate P. }
+  destruct EXP as (fp & P & FK).
+  unfold mk. fold rest. rewrite R0. cbn [lex_next l_deferred l_rest l_line]. rewrite P. rewrite <- R0.
+  (* the scan for "-->" *)
+  assert (ATK : starts_with [45; 45; 62] (skipn (k - 2) rest) = true).
+  { unfold rest. replace (k - 2)%nat with (List.length ([60; 33; 45; 45] ++ c)) by (rewrite app_length; cbn [List.length]; lia).
+    unfold S0, comment_text. rewrite app_assoc. rewrite <- (app_assoc ([60; 33; 45; 45] ++ c)). rewrite skipn_app_exact. reflexivity. }
+  assert (LR : (k < List.length rest)%nat) by (unfold rest; rewrite app_length; cbn [List.length]; fold k; lia).
+  pose proof (comment_end_exact (S (List.length rest)) rest (S (S fp)) ltac:(lia)) as CE.
+  destruct (comment_end (S (List.length rest)) rest (S (S fp))) as [k'|].
+  2:{ exfalso. specialize (CE k ltac:(lia)). congruence. }
+  destruct CE as (RK & MK & FIRST).
+  assert (k' = k).
+  { destruct (lt_eq_lt_dec k' k) as [[LT|EQ]|GT]; [|exact EQ|].
+    - exfalso. assert (J : (4 <= k' < List.length S0)%nat).
+      { split; [|fold k; lia]. pose proof (position_Some _ _ P) as (_ & (x & NX & PX) & _).
+        destruct fp as [|[|fp'']]; [cbn in NX; injection NX as <-; discriminate PX|cbn in NX; injection NX as <-; discriminate PX|lia]. }
+      specialize (OK k' J). unfold rest in MK. rewrite starts_with_app_inside in MK; [unfold S0 in MK; congruence|]. cbn [List.length]. fold k. lia.
+    - exfalso. specialize (FIRST k ltac:(lia)). congruence. }
+  subst k'.
+  assert (TXT : firstn k rest = S0) by (unfold rest, k; apply firstn_app_exact).
+  rewrite TXT.
+  assert (C1 : (k <? 6)%nat = false) by (apply Nat.ltb_ge; lia).
+  assert (C2 : starts_with [60; 33; 45; 45] S0 = true) by reflexivity.
+  assert (C3 : ends_with [45; 45] S0 = true).
+  { unfold ends_with, S0, comment_text. rewrite !rev_app_distr. reflexivity. }
+  rewrite C1, C2, C3. cbn [orb negb].
+  assert (CM : firstn (k - 2 - 4) (skipn 4 rest) = c).
+  { unfold rest, S0, comment_text. cbn [app skipn]. replace (k - 2 - 4)%nat with (List.length c) by lia.
+    rewrite <- app_assoc. apply firstn_app_exact. }
+  assert (AF : skipn (S k) rest = tail) by (unfold rest, k; apply skipn_app_S).
+  rewrite CM, AF. reflexivity.
+Qed.
